@@ -602,6 +602,9 @@ class ClientSequence(ClientInit):
             # the list as the caller handed it to THIS call
             cur = dict(st, track=True)
             v = ClientInit.oracle(self, cur, so)
+            if v is None and so.get("outcome") == "ok" and "late_v" in so and canon(so["late_v"]) != canon(so.get("v")):
+                v = ("returned-version-changed-by-later-calls", f"the call returned version {so.get('v')!r}; after the later calls on the same "
+                     f"streams the returned object says {canon(so['late_v'])}", {"v": so.get("v")})
             if v is not None:
                 key, what, exp = v
                 if i > 0:
